@@ -327,6 +327,133 @@ pub fn child(root: &str, tier: &str) -> i32 {
                 }
             }
         }
+        // ---------------------------------------------------------------------------------
+        // pipeline part: the same kinds of zones, flushed by the real shard, probed through
+        // the real planner + pruners (QueryPlan -> ExecutionSteps -> ZoneCollector)
+        // ---------------------------------------------------------------------------------
+        let step = if tier == "quick" { 5 } else { 1 };
+        let pipe_segs: Vec<(String, Vec<Vec<usize>>)> = vec![
+            ("multisets".into(), all3.iter().step_by(step).cloned().collect()),
+            ("one-zone".into(), vec![vec![0, 5, 13]]),
+            ("two-zones+partial".into(), vec![vec![1, 1, 2], vec![3, 9, 9], vec![4]]),
+            ("twelve-zones-mostly-matching".into(), (0..12).map(|i| vec![8 + i % 5, 9 + i % 4, 13]).collect()),
+        ];
+        // (segment label, zone id) -> rows (alphabet indices)
+        let mut truth_idx: BTreeMap<(String, u32), Vec<usize>> = BTreeMap::new();
+        let mut seg_labels = Vec::new();
+        for (si, (_sname, zones)) in pipe_segs.iter().enumerate() {
+            for (zi, zone) in zones.iter().enumerate() {
+                for idx in zone {
+                    let mut payload = serde_json::Map::new();
+                    for (field, _, vals) in &alph {
+                        payload.insert(field.to_string(), vals[idx % vals.len()].clone());
+                    }
+                    let r = sys.exec(&format!("STORE w FOR pc PAYLOAD {}", Value::Object(payload))).await;
+                    if !r.ok() {
+                        return Err(format!("pipeline STORE failed: {} {}", r.status, r.message));
+                    }
+                }
+                truth_idx.insert((format!("{si:05}"), zi as u32), zone.clone());
+            }
+            sys.barrier().await;
+            let fl = sys.flush_sequential().await;
+            if fl.iter().any(|(_, m)| !m.is_empty() && !m.to_lowercase().contains("ok") && !m.to_lowercase().contains("flush")) {
+                return Err(format!("pipeline flush: {fl:?}"));
+            }
+            sys.barrier().await;
+            seg_labels.push(format!("{si:05}"));
+        }
+        let base = root.join("cols/shard-0");
+        for l in &seg_labels {
+            if !base.join(l).is_dir() {
+                return Err(format!("pipeline: expected segment {l} under {}", base.display()));
+            }
+        }
+        let seg_ids = std::sync::Arc::new(std::sync::RwLock::new(seg_labels.clone()));
+        // zone layout check: the flushed zone metadata must agree with the intended chunks
+        {
+            let cmd = snel_db::command::parser::parse_command("QUERY w").map_err(|e| format!("{e:?}"))?;
+            let plan = snel_db::engine::core::QueryPlan::new(cmd, &sys.registry, &base, &seg_ids, None).await.ok_or("no plan")?;
+            let exec = snel_db::engine::core::QueryExecution::new(&plan);
+            let zones = snel_db::engine::core::zone::zone_collector::ZoneCollector::new(&plan, exec.steps().to_vec()).collect_zones();
+            let got: BTreeSet<(String, u32)> = zones.iter().map(|z| (z.segment_id.clone(), z.zone_id)).collect();
+            let want: BTreeSet<(String, u32)> = truth_idx.keys().cloned().collect();
+            if got != want {
+                return Err(format!("pipeline: unfiltered zone set {} differs from the intended layout {}", got.len(), want.len()));
+            }
+        }
+        for (field, kind, vals) in &alph {
+            let mut lits: Vec<Value> = vals.clone();
+            match *kind {
+                "int" => lits.extend([json!(4), json!(-2), json!(2.5), json!(-0.5)]),
+                "u64" => lits.extend([json!(3), json!(2.5)]),
+                "float" => lits.extend([json!(2), json!(-3), json!(0.25), json!(1000000)]),
+                "string" => lits.extend([json!("aaa"), json!("B"), json!("zzz"), json!("0")]),
+                "datetime" => lits.extend([json!(1699990000), json!(1700100000)]),
+                _ => {}
+            }
+            let ops: Vec<&str> = match *kind {
+                "bool" | "enum" => vec!["=", "!="],
+                _ => vec!["=", "!=", "<", "<=", ">", ">="],
+            };
+            for lit in &lits {
+                // literals the grammar cannot express are skipped (u64 >= 2^63 is a listed C02 finding)
+                let lit_txt = match lit {
+                    Value::String(x) => format!("{:?}", x),
+                    o => o.to_string(),
+                };
+                for op in &ops {
+                    let text = format!("QUERY w WHERE {field} {op} {lit_txt}");
+                    let Ok(cmd) = snel_db::command::parser::parse_command(&text) else { continue };
+                    let Some(plan) = snel_db::engine::core::QueryPlan::new(cmd, &sys.registry, &base, &seg_ids, None).await else { continue };
+                    let exec = snel_db::engine::core::QueryExecution::new(&plan);
+                    let zones = snel_db::engine::core::zone::zone_collector::ZoneCollector::new(&plan, exec.steps().to_vec()).collect_zones();
+                    let got: BTreeSet<(String, u32)> = zones.iter().map(|z| (z.segment_id.clone(), z.zone_id)).collect();
+                    probes += 1;
+                    let mut any = false;
+                    let mut missed: Vec<String> = Vec::new();
+                    for (key, rows) in &truth_idx {
+                        let m = rows.iter().any(|idx| {
+                            let v = &vals[idx % vals.len()];
+                            match cmp_vals(v, lit) {
+                                Some(o) => match *op {
+                                    "=" => o == std::cmp::Ordering::Equal,
+                                    "!=" => o != std::cmp::Ordering::Equal,
+                                    "<" => o == std::cmp::Ordering::Less,
+                                    "<=" => o != std::cmp::Ordering::Greater,
+                                    ">" => o == std::cmp::Ordering::Greater,
+                                    _ => o != std::cmp::Ordering::Less,
+                                },
+                                None => false,
+                            }
+                        });
+                        if m {
+                            any = true;
+                            if !got.contains(key) {
+                                missed.push(format!("{}:{}", key.0, key.1));
+                            }
+                        }
+                    }
+                    if any && got.len() < truth_idx.len() {
+                        nontrivial += 1;
+                    }
+                    if !missed.is_empty() {
+                        let litkind = if lit.is_f64() { "float literal" } else if lit.is_number() { "integer literal" } else { "string literal" };
+                        let opk = match *op {
+                            "=" => "=",
+                            "!=" => "!=",
+                            _ => "range",
+                        };
+                        findings.push(Finding {
+                            class: format!("planner + pruners on flushed segments: {kind} column, {opk}, {litkind}"),
+                            detail: format!("{text}: {} zones holding a match are not candidates, e.g. {:?}", missed.len(), missed.iter().take(3).collect::<Vec<_>>()),
+                        });
+                    }
+                }
+            }
+        }
+        *structures_loaded.entry("pipeline_segments".into()).or_insert(0) += seg_labels.len() as u64;
+        *structures_loaded.entry("pipeline_zones".into()).or_insert(0) += truth_idx.len() as u64;
         Ok(())
     });
     if let Err(e) = res {
@@ -404,7 +531,7 @@ pub fn check(tier: &str) -> i32 {
         coverage: json!({
             "evaluations": v["probes"],
             "distinct_nontrivial": v["nontrivial"],
-            "rule": "zones of 3 rows holding every multiset of 3 positions of a 14-value alphabet per kind (signed ints across byte boundaries and both extremes, u64 around 2^63 and 2^64, floats incl. -0.0 / 5e-324 / 1e308, strings incl. empty / prefix-related / non-ASCII / numeric-looking, bools, enum variants, instants on hour and day boundaries; quick: every third multiset) plus segments of 1, 3 (last partial), 11 and 12 zones; planned and written through ZonePlanner::plan + ZoneWriter::write_all (what a flush does per event type); each structure file that exists is loaded and probed: zone SuRF (>=, >, <=, < with every alphabet value, absent values and literals of another numeric kind, encoded as the range pruner encodes them), per-zone and per-field membership filters (=), enum bitmaps (=, != per variant), calendar hour/day buckets and per-zone time index (every stored instant), context index; oracle = brute-force scan of the zone's values with a typed comparison; distinct_nontrivial = probes for which some zone holds a match and (for range probes) the structure excluded at least one zone",
+            "rule": "zones of 3 rows holding every multiset of 3 positions of a 14-value alphabet per kind (signed ints across byte boundaries and both extremes, u64 around 2^63 and 2^64, floats incl. -0.0 / 5e-324 / 1e308, strings incl. empty / prefix-related / non-ASCII / numeric-looking, bools, enum variants, instants on hour and day boundaries; quick: every third multiset) plus segments of 1, 3 (last partial), 11 and 12 zones; planned and written through ZonePlanner::plan + ZoneWriter::write_all (what a flush does per event type); each structure file that exists is loaded and probed: zone SuRF (>=, >, <=, < with every alphabet value, absent values and literals of another numeric kind, encoded as the range pruner encodes them), per-zone and per-field membership filters (=), enum bitmaps (=, != per variant), calendar hour/day buckets and per-zone time index (every stored instant), context index; then the same kinds of zones are STOREd and FLUSHed through the real shard (segments of many, 1, 3 and 12 zones in one shard) and every probe `field op literal` (=, !=, <, <=, >, >= x the alphabet, absent values and literals of another numeric kind) is planned by the real QueryPlan and answered by the real ZoneCollector (index strategy choice + pruners + combination): every (segment, zone) holding a matching row must be among the candidates; oracle = brute-force scan of the zone's values with a typed comparison; distinct_nontrivial = probes for which some zone holds a match and (for range probes) the structure excluded at least one zone",
             "samples": v["samples"],
             "structure_files_loaded": v["structures"],
             "exhaustive": true,
